@@ -13,9 +13,9 @@ import (
 
 type c10Case struct {
 	NIn    int   `json:"nin"`
-	Signed int   `json:"signed"` // 0 unsigned, 1 signed (107 bytes), 2 first only
+	Signed int   `json:"signed"` // 0 unsigned, 1 signed (107 bytes), 2 first only, 3 last only
 	NOut   int   `json:"nout"`
-	Mix    int   `json:"mix"`  // 0 all P2PKH, 1 first is data (200 bytes), 2 alternate data/std
+	Mix    int   `json:"mix"`  // 0 all P2PKH, 1 first is data (200 bytes), 2 alternate data/std, 3 first is the payload-less 00 6a, 4 first is the bare 6a
 	Dest   int   `json:"dest"` // see c10Dest
 	Q      quote `json:"quote"`
 	Rel    int   `json:"rel"` // available amount relative to the reference thresholds
@@ -50,7 +50,7 @@ func c10Build(c c10Case) *txref.Tx {
 	t := &txref.Tx{Version: 1}
 	for i := 0; i < c.NIn; i++ {
 		in := p2pkhIn(i, 0)
-		if c.Signed == 1 || (c.Signed == 2 && i == 0) {
+		if c.Signed == 1 || (c.Signed == 2 && i == 0) || (c.Signed == 3 && i == c.NIn-1) {
 			in.Script = fill(107, 0x30)
 		}
 		t.Ins = append(t.Ins, in)
@@ -59,6 +59,12 @@ func c10Build(c c10Case) *txref.Tx {
 		sc := refP2PKH(fill(20, byte(i)))
 		if (c.Mix == 1 && i == 0) || (c.Mix == 2 && i%2 == 0) {
 			sc = append([]byte{0x00, 0x6a, 0x4c, 200}, fill(200, byte(i))...)
+		}
+		if c.Mix == 3 && i == 0 {
+			sc = []byte{0x00, 0x6a}
+		}
+		if c.Mix == 4 && i == 0 {
+			sc = []byte{0x6a}
 		}
 		t.Outs = append(t.Outs, txref.Out{Sats: uint64(600 + i), Script: sc})
 	}
@@ -227,11 +233,12 @@ func c10Check(c c10Case) (fs []rep.Finding) {
 var c10Quotes = []quote{
 	{5, 100, 5, 100}, {1, 1000, 1, 1000}, {50, 1000, 50, 1000}, {500, 1000, 500, 1000}, {1, 1, 1, 1}, {2, 1, 2, 1}, {3, 1, 3, 1},
 	{7, 3, 7, 3}, {1000, 1, 1000, 1}, {500, 1000, 1, 4}, {1, 2, 250, 1000}, {3, 1, 1, 1000}, {1, 1000, 3, 1},
+	{350, 1000, 350, 1000}, {35, 100, 7, 20}, // rates that are not exact binary fractions
 }
 
 func init() {
 	p := register(&Prop{ID: "C10", Level: "exploration",
-		Rule: "exhaustive product: inputs 1..3 P2PKH (unsigned / signed / first signed) x output counts {0,1,2,3,251,252,253,254} x output mix (all standard / first data / alternating data) x 11 change destinations (address, P2PKH script, 23-byte P2SH form, 35- and 67-byte P2PK, 1-, 100- and 300-byte scripts, existing output first/last/out of range) x 13 fee quotes (incl. >1 sat/byte, non-integral rates, unequal std/data rates and denominators) x 14 placements of the available amount relative to the big-integer reference thresholds (inputs<outputs, 0, fee-2..fee+3, fee+dust-1..fee+dust+2, just above the slack, ample). Oracle = the post-conditions of the statement computed with the reference fee model: earlier outputs and inputs untouched, outputs <= inputs, if changed: quoted fee(estimated final size) <= fee left <= quoted fee + ceil(9 bytes) + 9; if unchanged: remainder after the fee a change output needs <= dust (+ the same slack). distinct_nontrivial = distinct cases on which change returned without error",
+		Rule: "exhaustive product: inputs 1..3 P2PKH (unsigned / signed / first signed / last signed) x output counts {0,1,2,3,251,252,253,254} x output mix (all standard / first data / alternating data / first the payload-less `00 6a` / first the bare `6a`) x 11 change destinations (address, P2PKH script, 23-byte P2SH form, 35- and 67-byte P2PK, 1-, 100- and 300-byte scripts, existing output first/last/out of range) x 15 fee quotes (incl. >1 sat/byte, non-integral rates, unequal std/data rates and denominators) x 14 placements of the available amount relative to the big-integer reference thresholds (inputs<outputs, 0, fee-2..fee+3, fee+dust-1..fee+dust+2, just above the slack, ample). Oracle = the post-conditions of the statement computed with the reference fee model: earlier outputs and inputs untouched, outputs <= inputs, if changed: quoted fee(estimated final size) <= fee left <= quoted fee + ceil(9 bytes) + 9; if unchanged: remainder after the fee a change output needs <= dust (+ the same slack). distinct_nontrivial = distinct cases on which change returned without error",
 	})
 	sp := NewSpace(p, "change", c10Check)
 	p.Run = func(r *rep.Run, thorough bool) {
@@ -244,16 +251,19 @@ func init() {
 			return fs
 		}}).Each(r, func(yield func(c10Case)) {
 			for nin := 1; nin <= 3; nin++ {
-				for sg := 0; sg < 3; sg++ {
+				for sg := 0; sg < 4; sg++ {
 					if !thorough && nin == 3 && sg == 2 {
 						continue
 					}
+					if sg == 3 && nin == 1 {
+						continue // "last only" is "all" for one input
+					}
 					for _, nout := range nouts {
-						for mix := 0; mix < 3; mix++ {
+						for mix := 0; mix < 5; mix++ {
 							if nout == 0 && mix > 0 {
 								continue
 							}
-							if !thorough && nout > 3 && (mix == 2 || nin > 1) {
+							if !thorough && nout > 3 && (mix >= 2 || nin > 1) {
 								continue
 							}
 							for d := 0; d < c10Dests; d++ {
